@@ -34,7 +34,7 @@ if cmd == "add":
 elif cmd == "fixed":
     sig, commit = sys.argv[2], sys.argv[3]
     for f in d["findings"]:
-        if f["signature"] == sig:
+        if f["signature"] == sig and f.get("status") != "fixed":  # an earlier fixed entry of the same signature keeps its commit
             f["status"] = "fixed"
             f["commit"] = commit
             if len(sys.argv) > 4:
